@@ -184,6 +184,10 @@ def make_numerify_contract(opaque_prefix):
 def num_term(I, chars, opaque_prefix):
     """Num(chars) as a term.  opaque_prefix = k > 0: the first k characters stay under NumU, the rest is unfolded;
     'auto': exact decimal polynomial when every character is provably a digit, else NumU on the whole string"""
+    if isinstance(opaque_prefix, tuple) and opaque_prefix[0] == "iban":
+        # IBAN-level calls (BBAN + cc [+ dd]) share the opaque Num of the BBAN; national bodies are 'auto'
+        L = opaque_prefix[1]
+        opaque_prefix = L if len(chars) in (L + 2, L + 4) else "auto"
     if opaque_prefix == "auto":
         if all(I.entails(z_digit(c)) for c in chars):
             acc = z3.IntVal(0)
